@@ -217,7 +217,7 @@ func (ns *netState) claimScript() {
 	for k, rec := range hb.locks {
 		if ns.claimRec[k] == nil {
 			ns.claimSeq++
-			if ns.claimSeq%2 == 0 {
+			if ns.claimSeq%2 == 0 || ns.sc.noRevert {
 				ns.claimPlan[k] = -1 // this record skips the claim-then-revert stage
 			}
 		}
@@ -307,7 +307,23 @@ func (ns *netState) injectShares(wo *types.WorkObject) {
 	for k := 0; k < ns.sc.shares; k++ {
 		h := types.CopyWorkObjectHeader(wo.WorkObjectHeader())
 		kind := "own"
-		if ns.sc.crafted && (k > 0 || ns.sc.shares == 1) {
+		if ns.sc.flip && ns.owner != nil && k == 0 {
+			// one other miner, one lockup byte, contract layout, delegate changing with every share: its record
+			// (owner, miner, byte, epoch) is rewritten with another delegate by nearly every accumulation
+			ns.flipSeq++
+			h.SetPrimaryCoinbase(ns.sharePay[0])
+			switch ns.flipSeq % 3 {
+			case 0:
+				h.SetData(append([]byte{ns.sc.lockByte}, ns.owner.addr.Bytes()...))
+				kind = "flip:contract"
+			case 1:
+				h.SetData(append(append([]byte{ns.sc.lockByte}, ns.owner.addr.Bytes()...), ns.claimTo.Bytes()...))
+				kind = "flip:contract+delegateA"
+			default:
+				h.SetData(append(append([]byte{ns.sc.lockByte}, ns.owner.addr.Bytes()...), ns.minerQ.Bytes()...))
+				kind = "flip:contract+delegateB"
+			}
+		} else if ns.sc.crafted && (k > 0 || ns.sc.shares == 1) {
 			lb := uint8(x.r.Intn(4))
 			switch v := x.r.Intn(7); {
 			case v == 0:
